@@ -120,6 +120,19 @@ PROPS["C13"] = dict(
                  "partial: reverse and offset-based walks, and the Writers analogue of topics_listing_only_owner, are covered by the correspondence stream only"],
 )
 
+PROPS["C14"] = dict(
+    module="Panacea.Properties.C14",
+    obligations=["Panacea.C14.direct_injective", "Panacea.C14.fieldsOf_injective", "Panacea.C14.aol_legacy_injective",
+                 "Panacea.C14.pnft_not_legacy_signable", "Panacea.C14.did_legacy_injective_same_type",
+                 "Panacea.C14.did_deactivate_distinct", "Panacea.C14.did_create_update_collide"],
+    streams=[dict(name="signbytes", quick=120, thorough=2500, thorough_seeds=3)],
+    trusted=["hand-written Lean model Panacea/Model/SignBytes.lean of the legacy amino-JSON sign bytes (GetSignBytes = MustSortJSON(ModuleCdc.MustMarshalJSON(msg))): omitempty fields under their JSON names, {type,value} wrapper iff the module codec registers the name; tied by the signbytes stream, which compares the exact bytes of the real GetSignBytes of the AOL messages with the model's rendering and evaluates the pairwise-distinctness monitor on the real SignModeHandler of the app in both sign modes",
+             "regenerated method table Generated.msgMethods (translator /verif/extract) for which messages implement legacytx.LegacyMsg",
+             "that rendering distinct canonical documents gives distinct bytes (JSON is injective on {type, fields}); protobuf/Any decoding is a function of the body bytes (direct modes)",
+             "DID documents embedded in DID messages are an opaque parameter docJson"],
+    assumptions=["known finding F1-DID: the theorem did_create_update_collide proves that MsgCreateDID and MsgUpdateDID with the same fields have the same legacy sign document (the property fails there); injectivity is proved within each DID message type and between deactivate and create/update only"],
+)
+
 PNFT_TRUSTED = [
     "hand-written Lean model Panacea/Model/Pnft.lean of x/pnft and of the cosmos-sdk v0.47.12 x/nft keeper's key layout (five prefixes, delimiter-based keys), tied by the pnft stream: real msg server + query server on a real app, raw store dumps compared key for key",
     "protobuf/Any encoding of class and token metadata not modelled (values compared after decoding with the real codecs)",
